@@ -12,6 +12,7 @@ pub mod c18;
 pub mod c18b;
 pub mod c19;
 pub mod c20;
+pub mod c01;
 pub mod c02;
 pub mod c03;
 pub mod c05;
@@ -42,6 +43,7 @@ pub fn run(args: &Args) -> ! {
         "C02" => c02::run(args),
         "C17" => c17::run(args),
         "C05" => c05::run(args),
+        "C01" => c01::run(args),
         p => {
             eprintln!("INFRA: unknown property '{}'", p);
             std::process::exit(2)
@@ -79,6 +81,7 @@ pub fn replay_one(ctx: &Ctx, doc: &ReplayDoc) {
         "C02" => c02::replay_one(ctx, doc),
         "C17" => c17::replay_one(ctx, doc),
         "C05" => c05::replay_one(ctx, doc),
+        "C01" => c01::replay_one(ctx, doc),
         p => ctx.infra_error(format!("unknown property '{}' in replay file", p)),
     }
 }
